@@ -787,6 +787,23 @@ PROPS["C17"] = dict(
 )
 
 
+# C16 through the generated client: a peer that answers with a response of another rpc's type (two-rpc shapes of Glue.tla)
+def glue16_to_sched(g, consts):
+    sc = glue_to_sched(g, consts)
+    ms = g["methods"]
+    ok2 = g["accepted"] and len([m for m in ms if m.get("gate", "none") != "off"]) == 2
+    sc["tags"] = ("two-rpcs", "+".join(m["ret"] for m in ms)) if ok2 else ("other",)
+    sc["weight"] = 3 if ok2 else 1
+    return sc
+
+
+PROPS["C16"]["families"].append(dict(family="glue", trace_module="Trace_Glue", runner=_glue_runner, random_quick=0, random_thorough=0, tag="glue",
+                                     exports=[dict(module="MC_Glue", name="shapes16", constants=dict(MaxMethods=2), quick={}, thorough={}, invariants=("ExportJson",),
+                                                   to_sched=glue16_to_sched, view="", cap_quick=30, cap_thorough=150, timeout=600)]))
+PROPS["C16"]["assumptions"] = PROPS["C16"]["assumptions"] + [
+    "generated clients: two-rpc services of Glue.tla's shape family are compiled and called against a peer that answers every request with "
+    "a well-formed response of the other rpc's type"]
+
 # ------------------------------------------------------------------ chains (Chain.tla): C04 cascade, C07 / C18 across hops
 def chain_fixed(tier):
     out = []
